@@ -13,7 +13,7 @@ RULE = ("handshakes under loss/dup/reorder of SYN, SYN-ACK, ACK and error frames
         "incompatible sizes) injected at every point incl. established connections, pairs of endpoint configurations compatible or not, up to 4 simultaneous clients. "
         "Oracle: server Connect only after a delivered ACK carrying the nonce of a SYN-ACK the server sent to that address (itself answering a delivered SYN); client "
         "Connect only after a delivered SYN-ACK echoing its SYN nonce; first data frames start at the nonces (frame id = nonce, packet id = nonce mod 2^20); refusals carry "
-        "the matching error code and echo the nonce; event grammar as C08. Non-trivial: a Connect or a refusal happened.")
+        "the matching error code and echo the nonce; event grammar as C08. Non-trivial: a Connect or a refusal happened. Forged / stale handshake error frames with the client's own nonce after Connect; oracle established_not_reset.")
 
 U32 = 0xFFFFFFFF
 
